@@ -1090,7 +1090,9 @@ func edgeEntropyScore(n *Node, edges EdgeMap, self int64) float64 {
 		}
 	}
 	if total != 0 {
-		for _, e := range edges {
+		// Floating-point addition is not associative: visit the edges in a
+		// fixed order so that the score does not depend on map iteration.
+		for _, e := range edges.Sort() {
 			frac := float64(abs64(e.Weight)) / float64(total)
 			score += -frac * math.Log2(frac)
 		}
